@@ -52,7 +52,11 @@ EXPLANATION = (
     "tuple, __eq__ requires class identity. R-C06-init: the generated constructor takes the fields positionally in "
     "declaration order (from_bits / clone rely on it), converts Bits fields, builds distinct default elements. "
     "R-C06-wiring: _process_class / bitstruct / mk_bitstruct attach each generated function under its name from the same "
-    "ordered field table. R-C06-concat: concat puts its first operand most significant and sums the widths. "
+    "ordered field table. R-C06-admit: the admission guard of list fields (_check_field_annotation and its helpers) is "
+    "evaluated over an exhaustive finite family of nested list specs over abstract leaf tokens (every spec of depth <= 2 with "
+    "lists of length 0..2 over two Bits types, a struct type and a non-type; 3-element lists; 2x2xN arrays; thorough tier: every "
+    "spec of depth <= 3) and must accept exactly the specs in which every element has the shape and leaf type of element 0 -- "
+    "the assumption under which the generators derive every element from type_[0]. R-C06-concat: concat puts its first operand most significant and sums the widths. "
     "NOT decided: user supplied __init__/__eq__/__hash__ overrides, the _bitstruct_hash_cache collision case, the "
     "Bits primitives (slicing, @=, <<=, clone: C04/C05), the Yosys half of R-layout-agree (C12), _create_fn/exec itself.")
 ASSUMPTIONS = [
@@ -1997,6 +2001,161 @@ def _ancestors(n, stop):
 
 
 # ---------------------------------------------------------------------------
+# R-C06-admit: the admission guard establishes what the generators assume about list fields
+def _spec_levels(leaves, depth, maxlen):
+    import itertools
+    cur = list(leaves)
+    for _ in range(depth):
+        nxt = list(leaves)
+        seen = set()
+        for n in range(0 if _ == 0 else 1, maxlen + 1):
+            for c in itertools.product(cur, repeat=n):
+                nxt.append(list(c))
+        cur = []
+        for x in nxt:
+            k = repr(x)
+            if k not in seen:
+                seen.add(k)
+                cur.append(x)
+    return cur
+
+
+def _spec_shape(s):
+    """('leaf', tag) / ('list', n, element shape) when every element has the shape of element 0, else a reason string"""
+    if isinstance(s, U.Leaf):
+        return ('leaf', s.tag) if s.kind != 'nontype' else 'invalid leaf'
+    if not s:
+        return 'empty list'
+    shapes = [_spec_shape(e) for e in s]
+    for sh in shapes:
+        if isinstance(sh, str):
+            return sh
+    for sh in shapes[1:]:
+        if sh != shapes[0]:
+            a, b = shapes[0], sh
+            while a[0] == b[0] == 'list' and a[1] == b[1]:
+                a, b = a[2], b[2]
+            if a[0] != b[0]:
+                return 'nesting differs from element 0'
+            if a[0] == 'list':
+                return 'length differs from element 0'
+            return 'leaf type differs from element 0'
+    return ('list', len(s), shapes[0])
+
+
+def _spec_size(s):
+    return 1 if isinstance(s, U.Leaf) else 1 + sum(_spec_size(e) for e in s)
+
+
+def admission_domain(thorough=False):
+    A_, B_, P_, X_ = U.Leaf('A', 'bits'), U.Leaf('B', 'bits'), U.Leaf('P', 'struct'), U.Leaf('X', 'nontype')
+    import itertools
+    specs = _spec_levels([A_, B_, P_, X_], 2, 2)                      # every spec of depth <= 2, lists of length 0..2
+    specs += [list(c) for c in itertools.product(_spec_levels([A_, B_], 1, 2), repeat=3)]   # three elements
+    rows = [[A_], [B_], [A_, A_], [A_, B_], A_]
+    specs += [[[x, y], [z, w]] for x in rows for y in rows for z in rows for w in rows]      # three dimensions
+    if thorough:
+        specs += _spec_levels([A_, B_], 3, 2)                           # every spec of depth <= 3
+    out, seen = [], set()
+    for sp in specs:
+        k = repr(sp)
+        if k not in seen:
+            seen.add(k)
+            out.append(sp)
+    return out
+
+
+def _rule_admit(repo, thorough):
+    r = RuleResult('R-C06-admit',
+                   "a list-typed field is admitted only if, at every nesting level, every element has the shape and leaf type "
+                   "of element 0 -- the generators derive every element's width, default, slice and copy from type_[0] "
+                   "(R-C06-traversal / R-C06-width); anything else is rejected with TypeError before the field table is built")
+    m = repo.mod(BS)
+    guard = m.get_func('_check_field_annotation')
+    if len(guard.args.args) != 3:
+        raise AnalysisError("_check_field_annotation signature changed")
+    cats = {}
+    quick = {repr(x) for x in admission_domain(False)} if thorough else set()
+    for sp in admission_domain(thorough):
+        if repr(sp) in quick:
+            continue
+        ti = U.TinyInterp(m)
+        try:
+            ti.call('_check_field_annotation', [U.Opaque(), 'f', sp])
+            got = 'accepted'
+        except U.TinyExc as ex:
+            got = ex.cls
+        r.evaluations += 1
+        sh = _spec_shape(sp)
+        cat = sh if isinstance(sh, str) else 'homogeneous'
+        want = 'TypeError' if isinstance(sh, str) else 'accepted'
+        c = cats.setdefault(cat, dict(n=0, bad=[]))
+        c['n'] += 1
+        if got != want:
+            c['bad'].append((_spec_size(sp), repr(sp), got))
+    for cat in ('homogeneous', 'leaf type differs from element 0', 'length differs from element 0',
+                'nesting differs from element 0', 'invalid leaf', 'empty list'):
+        c = cats.get(cat)
+        if c is None:
+            if thorough:
+                continue
+            raise AnalysisError(f"R-C06-admit: no spec of category {cat!r} was generated")
+        want = 'accepted' if cat == 'homogeneous' else 'rejected with TypeError'
+        cons = f"list specs [{cat}] are {want}"
+        if c['bad']:
+            size, text, got = sorted(c['bad'])[0]
+            if cat == 'homogeneous':
+                msg = f"the well-formed field type {text} is {got} ({len(c['bad'])} of {c['n']} such specs)"
+            else:
+                msg = (f"the field type {text} ({cat}) is {got} instead of rejected with TypeError ({len(c['bad'])} of "
+                       f"{c['n']} such specs): the generated nbits / to_bits / from_bits / clone / @= / default value are all "
+                       f"derived from element 0 and do not describe the other elements (nbits != sum of the declared leaf "
+                       f"widths, from_bits(to_bits(v)) != v)")
+            r.bad(m, '_recursive_check_array_types', cons + f": {text}", msg, m.get_func('_recursive_check_array_types').lineno)
+        else:
+            r.ok(m, '_recursive_check_array_types', cons, note=f"{c['n']} specs")
+    # the guard runs for every annotation before the field enters the field table
+    pc = m.get_func('_process_class')
+    cons = "every annotation passes _check_field_annotation before it enters the field table"
+    calls = [n for n in walk_no_nested(pc) if isinstance(n, ast.Call) and norm(n.func) == '_check_field_annotation']
+    stores = [n for n in walk_no_nested(pc) if isinstance(n, ast.Assign) and len(n.targets) == 1
+              and isinstance(n.targets[0], ast.Subscript) and norm(n.targets[0].value) == 'fields']
+    pr = []
+    if len(calls) != 1 or len(stores) != 1:
+        pr.append(f"{len(calls)} guard calls / {len(stores)} field-table stores in _process_class")
+    else:
+        call, st = calls[0], stores[0]
+        cst = stmt_of(call)
+        if parent(cst) is not parent(st) or not isinstance(parent(st), ast.For):
+            pr.append("the guard call and the field-table store are not in the same loop body")
+        else:
+            body = parent(st).body
+            if [i for i, x in enumerate(body) if x is cst][0] > [i for i, x in enumerate(body) if x is st][0]:
+                pr.append("the guard runs after the field was stored")
+            if len(call.args) != 3 or norm(call.args[2]) != norm(st.value):
+                pr.append(f"the guard checks `{norm(call.args[-1])}`, the table stores `{norm(st.value)}`")
+            if any(g_.kind == 'if' for g_ in guards_of(cst, stop=parent(st))):
+                pr.append("the guard call is conditional")
+    (r.bad(m, '_process_class', cons, '; '.join(pr), pc.lineno) if pr else r.ok(m, '_process_class', cons))
+    r.require_floor(4 if thorough else 7)
+    return r
+
+
+def rule_admit(repo):
+    return _rule_admit(repo, False)
+
+
+def rule_admit_deep(repo):
+    """thorough tier: additionally every nested list spec of depth <= 3 over two leaf types (only the specs the
+    quick domain does not contain, so a defect already reported there is not reported twice)"""
+    r = _rule_admit(repo, True)
+    r.rule = 'R-C06-admit-deep'
+    for f in r.findings:
+        f.rule = r.rule
+    return r
+
+
+# ---------------------------------------------------------------------------
 # R-C06-concat
 def rule_concat(repo):
     r = RuleResult('R-C06-concat', "concat(a, b, ...) places its first operand most significant, each operand shifted by the "
@@ -2137,7 +2296,8 @@ def rule_leaf_values(repo):
     return rule_range(repo)
 
 
-RULES = [rule_traversal, rule_leaf, rule_width, rule_mirror, rule_eqhash, rule_init, rule_wiring, rule_concat, rule_cache, rule_leaf_values]
+RULES = [rule_traversal, rule_leaf, rule_width, rule_mirror, rule_eqhash, rule_init, rule_wiring, rule_admit, rule_concat, rule_cache, rule_leaf_values]
+THOROUGH_RULES = [rule_admit_deep]
 
 
 # ---------------------------------------------------------------------------
@@ -2301,6 +2461,17 @@ MUTANTS = [
     _m('eq-single-field-shortcut', "  self_tuple  = _mk_tuple_str( 'self', fields )\n  other_tuple",
        "  if len(fields) == 1: return _create_fn('__eq__', ['self','other'], ['return True'])\n  self_tuple  = _mk_tuple_str( 'self', fields )\n  other_tuple",
        'R-C06-eqhash'),
+    # --- admission guard of list fields (third seeding round)
+    _m('admit-rows-leaf-type-not-compared', """      y_type = _recursive_check_array_types( y )
+      assert y_type is x_type""", """      _recursive_check_array_types( y )""", 'R-C06-admit'),
+    _m('admit-row-length-not-compared', "      assert isinstance( y, list ) and len(y) == x_len\n", "      assert isinstance( y, list )\n",
+       'R-C06-admit'),
+    _m('admit-only-second-leaf-compared', "  for y in current[1:]:\n    assert y is x", "  for y in current[1:2]:\n    assert y is x",
+       'R-C06-admit'),
+    _m('admit-leaf-kind-not-checked', "  assert issubclass( x, Bits ) or is_bitstruct_class( x )\n  for y in current[1:]:",
+       "  for y in current[1:]:", 'R-C06-admit'),
+    _m('admit-failure-not-reported', "    print(e)\n    return None", "    print(e)\n    return arr", 'R-C06-admit'),
+    _m('admit-guard-not-called', "    _check_field_annotation( cls, a_name, a_type )\n", "    pass\n", 'R-C06-admit'),
     # --- concat
     _m('concat-result-args-swapped', "return Bits( nbits, value )", "return Bits( value, nbits )", 'R-C06-concat', file=HELPERS),
     _m('concat-shift-by-total', "value = (value << xnb) | x.uint()", "value = (value << nbits) | x.uint()", 'R-C06-concat', file=HELPERS),
@@ -2371,6 +2542,9 @@ EQUIV = [
     for i in range(len(type_)):
       ret.extend( _gen_list_imatmul_strs( type_[0], f"{prefix}[{i}]" ) )
     return ret'''),
+    _m('admit-identity-operands-swapped', "      assert y_type is x_type", "      assert x_type is y_type"),
+    _m('admit-length-via-local', "      assert isinstance( y, list ) and len(y) == x_len\n",
+       "      y_len = len(y) if isinstance( y, list ) else -1\n      assert x_len == y_len\n"),
     _m('from-bits-list-reverse-in-place', """      return end_bit, [ f"[{','.join(reversed(from_strs))}]" ]""",
        """      from_strs.reverse()
       return end_bit, [ f"[{','.join(from_strs)}]" ]"""),
